@@ -107,6 +107,28 @@ func (e *Engine) at(s *fstate, v ssa.Value, b *ssa.BasicBlock, depth int) AV {
 		if d == nil {
 			break
 		}
+		if len(c.Preds) >= 2 && len(c.Preds) <= 4 && depth < 3 && definedBefore(v, c) {
+			// merge point of a short-circuit condition (x != 1 && x != 3 -> error): what holds on
+			// every incoming edge holds from here on. Acyclic merges only.
+			acyclic := true
+			for _, p := range c.Preds {
+				if c.Dominates(p) {
+					acyclic = false
+				}
+			}
+			if acyclic {
+				j := Bottom()
+				for _, p := range c.Preds {
+					j = Join(j, e.atEdge2(s, v, p, c, depth+1))
+				}
+				if !j.IsBottom() {
+					if m := meetAV(r, j); !m.IsBottom() {
+						r = m
+					}
+				}
+			}
+			continue
+		}
 		if len(c.Preds) != 1 || c.Preds[0] != d || len(d.Succs) != 2 {
 			continue
 		}
@@ -118,6 +140,28 @@ func (e *Engine) at(s *fstate, v ssa.Value, b *ssa.BasicBlock, depth int) AV {
 	}
 	if depth == 0 {
 		s.atMemo[key] = r
+	}
+	return r
+}
+
+// definedBefore: v is available on entry to every predecessor of b (parameter, or defined in a
+// block that strictly dominates b).
+func definedBefore(v ssa.Value, b *ssa.BasicBlock) bool {
+	switch x := v.(type) {
+	case *ssa.Parameter, *ssa.FreeVar, *ssa.Const:
+		return true
+	case ssa.Instruction:
+		return x.Block() != b && x.Block().Dominates(b)
+	}
+	return false
+}
+
+func (e *Engine) atEdge2(s *fstate, v ssa.Value, pred, succ *ssa.BasicBlock, depth int) AV {
+	r := e.at(s, v, pred, depth)
+	if len(pred.Succs) == 2 {
+		if cond := ifCondOf(pred); cond != nil && pred.Succs[0] != pred.Succs[1] {
+			r = e.applyCond(s, r, v, cond, pred.Succs[0] == succ, pred, succ, succ, depth)
+		}
 	}
 	return r
 }
